@@ -140,7 +140,7 @@ func (e *Engine) verifyGlobalInit(gi *GlobalInv, obj *types.Var, initExpr ast.Ex
 	fx.retFrames = []*retFrame{{}}
 	fx.inGlobalInv = true // the invariant is not yet available while the initialiser runs
 	v := fx.eval(st, initExpr)
-	e.storeCell(st, "global."+globalName(obj), e.ts.Int(0), obj.Type(), fx.convertForAssign(st, v, obj.Type()))
+	e.storeCell(st, e.globalKey(obj), e.ts.Int(0), obj.Type(), fx.convertForAssign(st, v, obj.Type()))
 	g := fx.evalClause(st, nil, gi.Clause, map[string]*Value{})
 	fx.inGlobalInv = false
 	fx.assert(st, "init", "", g, initExpr, gi.Props, fmt.Sprintf("initialiser of %s establishes: %s", gi.Var, gi.Clause.Text))
